@@ -475,3 +475,64 @@ func (e *env) checkEncrypted(encRaw []byte, samples [][][]byte, codec byte, sche
 	}
 	return ""
 }
+
+// ---------------------------------------------------------------- kind T: where the sample sizes come from
+
+// trexCases: clear files written like an external packager would (sizes in trun, tfhd or only trex), decoded; for
+// every fragment the sizes Fragment.GetFullSamples resolves with the file's trex and with a nil trex.
+func (e *env) trexCases(r *hx.Rng, n int, next func() string) {
+	for i := 0; i < n; i++ {
+		codec := byte(r.Pick('a', 'h', 'u'))
+		scheme := []string{"cenc", "cbcs"}[r.Intn(2)]
+		fo := fileOpts{nfrags: r.Pick(1, 2, 3), styp: r.Bool(), sig: true, optTrun: r.Intn(4) == 0}
+		raw, _ := e.buildClearFile(codec, scheme, fo, r)
+		sizesWith := func(useTrex bool, k int) string {
+			f, err := mp4.DecodeFile(bytes.NewReader(raw))
+			if err != nil {
+				return "decode-err"
+			}
+			fr := f.Segments[0].Fragments[k]
+			var trex *mp4.TrexBox
+			if useTrex {
+				trex = f.Init.Moov.Mvex.Trex
+			}
+			var fss []mp4.FullSample
+			p := hx.Try(func() { fss, err = fr.GetFullSamples(trex) })
+			if p != "" {
+				return "panic"
+			}
+			if err != nil {
+				return "err"
+			}
+			var sz []int
+			tot := 0
+			for _, fs := range fss {
+				sz = append(sz, len(fs.Data))
+				tot += len(fs.Data)
+			}
+			return fmt.Sprintf("ok:%s/%d", hx.Csv(sz), len(fr.Mdat.Data)-tot)
+		}
+		f, err := mp4.DecodeFile(bytes.NewReader(raw))
+		must(err)
+		for k, fr := range f.Segments[0].Fragments {
+			traf := fr.Moof.Traf
+			trunS, tfhdS := "-", "-"
+			if traf.Trun.HasSampleSize() {
+				var sz []int
+				for _, sm := range traf.Trun.Samples {
+					sz = append(sz, int(sm.Size))
+				}
+				trunS = hx.Csv(sz)
+				if len(sz) == 0 {
+					trunS = "empty"
+				}
+			}
+			if traf.Tfhd.HasDefaultSampleSize() {
+				tfhdS = strconv.Itoa(int(traf.Tfhd.DefaultSampleSize))
+			}
+			emit("T", next(), strconv.Itoa(int(traf.Trun.SampleCount())), trunS, tfhdS,
+				strconv.Itoa(int(f.Init.Moov.Mvex.Trex.DefaultSampleSize)), strconv.Itoa(len(fr.Mdat.Data)),
+				sizesWith(true, k)+"|"+sizesWith(false, k))
+		}
+	}
+}
